@@ -667,6 +667,11 @@ fn shl(a: Fr, b: Fr) -> Fr {
     }
 
     if b.cmp(&Fr::from(Fr::MODULUS_BIT_SIZE)).is_ge() {
+        // circom: a shift count k > p/2 means a shift by p - k in the other direction
+        let nb = -b;
+        if nb.cmp(&Fr::from(Fr::MODULUS_BIT_SIZE)).is_lt() {
+            return shr(a, nb);
+        }
         return Fr::zero();
     }
 
@@ -686,8 +691,14 @@ fn shr(a: Fr, b: Fr) -> Fr {
     }
 
     match b.cmp(&Fr::from(254u64)) {
-        Ordering::Equal => return Fr::zero(),
-        Ordering::Greater => return Fr::zero(),
+        Ordering::Equal | Ordering::Greater => {
+            // circom: a shift count k > p/2 means a shift by p - k in the other direction
+            let nb = -b;
+            if nb.cmp(&Fr::from(254u64)).is_lt() {
+                return shl(a, nb);
+            }
+            return Fr::zero();
+        }
         _ => (),
     };
 
